@@ -251,6 +251,36 @@ class MappedRequiredArg(Estimator):
         super().__init__(seed, a=a, b=b)
 
 
+@wrap.Actor.type
+class MappedBare:
+    """Documented parameterless use of the decorator: the class already speaks the actor method names."""
+
+    TAG = 'mapped-bare'
+
+    def __init__(self, seed: int = 0, *, a: int = 0, b: int = 0):
+        self.seed = seed
+        self.a = a
+        self.b = b
+        self.history_ = None
+
+    def train(self, features, labels) -> None:
+        self.history_ = (self.history_ or ()) + (((self.a, self.b), features, labels),)
+
+    def apply(self, x):
+        if self.history_ is None:
+            raise RuntimeError('Not fitted')
+        return self.TAG, self.seed, (self.a, self.b), self.history_, x
+
+    def get_params(self) -> typing.Mapping[str, typing.Any]:
+        return {'a': self.a, 'b': self.b}
+
+    def set_params(self, **params) -> None:
+        for key, value in params.items():
+            if key not in {'a', 'b'}:
+                raise ValueError(f'Invalid parameter {key}')
+            setattr(self, key, value)
+
+
 def _flavour(cls, stateful, seeded=True, importable=True, defaults=True, required=False, greedy=False):
     return {
         'cls': cls,  # the actor class
@@ -275,5 +305,6 @@ FLAVOURS = {
     'mapped-callables': _flavour(MappedCallables, True, importable=False),
     'mapped-stateless': _flavour(MappedStateless, False),
     'mapped-decorated': _flavour(MappedDecorated, True),
+    'mapped-bare': _flavour(MappedBare, True),
     'mapped-required-arg': _flavour(MappedRequiredArg, True, required=True),
 }
